@@ -40,6 +40,7 @@ func checkC04(w *World, r *Report) {
 	r.Explanation += " Round 9: (R04.11) a function that switches the tokenizer's source restores it before every return."
 	r.Explanation += " Round 11: (R04.12) loaders return the bytes of the file; (R04.13) Parse gets the source unchanged."
 	r.Explanation += " Round 12: (R04.14) Write methods report the whole argument."
+	r.Explanation += " Round 13: (R04.15) output staged in a buffer is delivered to the writer."
 	r.RuleText = "obligation = one transport step / one reader of a content field / one write into verbatim content; non-trivial = all"
 	r.Trusted = []string{"io.Writer implementations write the bytes they are given"}
 
